@@ -1,7 +1,7 @@
 (* Property C09 -- roots and integrals of observable-dependent functions propagate errors exactly.  Theorems only. *)
 From Coq Require Import ZArith QArith Reals List Bool.
 From Interval Require Import Interval.Interval Real.Xreal Real.Xreal_derive.
-From PV Require Import Base.QAux Base.RI Base.Expr Lin.Mat Fit.Implicit.
+From PV Require Import Base.QAux Base.RI Base.Expr Base.ExprFold Base.Dyadic Base.DyadicR Lin.Mat Fit.Implicit Fit.ImplicitSound.
 Import ListNotations.
 
 (* the symbolic derivatives df/dx, df/dd (roots) and d/d(p, a, b) of the antiderivative difference (integrals) are the real derivatives *)
@@ -19,6 +19,30 @@ Theorem inverse_function_rule :
   (fx * dx + dotv fd dd == 0 <-> dx == - (dotv fd dd) / fx)%Q.
 Proof. exact inverse_rule. Qed.
 
+(* the folded derivative used by the verdicts (0 * e folded to 0) is the same real derivative wherever the interval certificate
+   guardsI holds, its interval evaluation encloses it, and the certificate is inherited (second derivatives: apply twice) *)
+Theorem certified_folded_derivative :
+  forall (l : list Q) e v, guardsI (qenvI l) e = true ->
+  Xderive_pt (fun t => evalX (updX (qenvR l) v t) e) (Xreal (qenvR l v)) (evalX (renv (qenvR l)) (Dfold e v))
+  /\ contains (I.convert (evalI (qenvI l) (Dfold e v))) (evalX (renv (qenvR l)) (Dfold e v))
+  /\ guardsR (qenvR l) (Dfold e v).
+Proof. exact certified_derivative. Qed.
+
+(* interval bounds read as dyadic numbers enclose the real value *)
+Theorem interval_bounds_as_dyadics :
+  forall i a b r, i2d i = Some (a, b) -> contains (I.convert i) (Xreal r) -> (dR a <= r <= dR b)%R.
+Proof. exact i2d_correct. Qed.
+
+(* the decision taken on every differentiated equation: real coefficients inside their enclosures, real arguments inside theirs,
+   a positive decision  ==>  |sum_j c_j x_j| <= rt (sum_j |c_j x_j| + scale)  *)
+Theorem differentiated_equation_decision_is_sound :
+  forall cs xs crs xrs rt scale res,
+  Forall2 encl cs crs -> Forall2 enclx xs xrs -> (0 <= dR rt)%R ->
+  dform cs xs dzero dzero dzero = Some res ->
+  dleb (fst res) (dmul rt (dadd (snd res) scale)) = true ->
+  (Rabs (rsum crs xrs) <= dR rt * (rasum crs xrs + dR scale))%R.
+Proof. exact form_decision_sound. Qed.
+
 (* Non-vacuity: x^3 - d at x = 2, d = 8: the equation holds, df/dx = 12, df/dd = -1 *)
 Example c09_example :
   let f := ESub (EMul (EMul (EV 0) (EV 0)) (EV 0)) (EV 1) in
@@ -28,3 +52,6 @@ Proof. split; vm_compute; reflexivity. Qed.
 Print Assumptions symbolic_derivative_is_the_real_derivative.
 Print Assumptions interval_evaluation_encloses_the_real_value.
 Print Assumptions inverse_function_rule.
+Print Assumptions certified_folded_derivative.
+Print Assumptions interval_bounds_as_dyadics.
+Print Assumptions differentiated_equation_decision_is_sound.
